@@ -61,6 +61,30 @@ CHECKS = {
     design_ref="DESIGN.md section 6 C13",
     note="Crash = BaseException raised at the effect boundary in-process + engine dropped; SQLite commit atomicity trusted. Effects observed at io.open / os.unlink / os.rename / os.replace / SQLAlchemy commit.",
     technique="TLA+ spec (IndexSteps.tla) + TLC on crash/rerun model + exhaustive crash-point (and torn-write) enumeration on the real commands via interposition"),
+ "C03": dict(
+    category="model_checking",
+    text="Filter.tla defines Sat/Result of a WHERE tree on a universe of notes (text on code points, dates, typed property comparison, smart case, * globs, link resolution through ZID/ID/RID). TLC (MC_Filter) enumerates every atom of an 86-entry atom table and the compositions a b, a | b, (a | b) c, c (a | b c) | a over the basis and evaluates Result on a designed universe read from the real index; each query text runs through the real compiler and SQLite index and must return TLC's set. Random universes x random queries: the compiled WHERE structure is projected, the real answer recorded, and TLC (Trace_Filter) evaluates Result on the raw rows.",
+    design_ref="DESIGN.md section 6 C03",
+    note="Trusts: TLC; projection of rows / WhereOrFilter objects to Filter.tla values (code points, YYYYMMDD). Compared property values are well-typed per key; names lower-case ASCII.",
+    technique="TLA+ spec (Filter.tla) + TLC exhaustive atom/composition enumeration + S->I replay on the real index + I->S batch validation"),
+ "C04": dict(
+    category="model_checking",
+    text="QueryGrammar.tla gives, per family, the query texts and the structure they denote (all 64 priority spellings, kind strings, select forms x clause layouts, order/group lists, property atoms with inferred type, tags, date atoms through Dates.tla - TLC-checked calendar arithmetic - under 4 (quick) / 24 (thorough) todays); MC_Filter gives tree shapes. Every TLC-enumerated text is compiled by the real build_zorg_query under a frozen clock and the projected Query must equal the denoted structure.",
+    design_ref="DESIGN.md section 6 C04",
+    note="Trusts: TLC; projection of Query objects; identifiers avoid the grammar's literal tokens. One recorded known finding (key:DATE-SPEC equality atoms raise).",
+    technique="TLA+ spec (QueryGrammar.tla, Dates.tla) + TLC exhaustive family enumeration + S->I replay into the real query compiler"),
+ "C09": dict(
+    category="model_checking",
+    text="Output.tla states the clauses of a faithful rendering (groups, group-order, each-once, note-order, values, values-sorted, count). TLC (MC_Output) enumerates select form x GROUP BY list x ORDER BY list; each query is executed by the real swog.execute on the designed universe and random universes, the output parsed into entries with header paths, matching notes read from raw rows, and TLC (Trace_Output) evaluates every clause.",
+    design_ref="DESIGN.md section 6 C09",
+    note="Trusts: TLC; the output parser by marker lines; note text of a row = PageSem!RenderNote (bound by C12). One recorded known finding (`O none` compares line numbers as text).",
+    technique="TLA+ spec (Output.tla) + TLC case enumeration + S->I execution on the real index + batch validation of rendered outputs by TLC"),
+ "C15": dict(
+    category="model_checking",
+    text="SavedQ.tla defines substitution of {name} by the saved WHERE tree as a unit (RefLaw). TLC (MC_SavedQ) enumerates 6,048 cases: acyclic saved sets qa->qb->qc with conjunctions / alternatives / groups / nested references, four first-line layouts with S/O/G, six referencing contexts, and computes Filter!Result of the substituted tree; the real expand_saved_queries + compiler + index must return the same notes; missing names must be errors.",
+    design_ref="DESIGN.md section 6 C15",
+    note="Trusts as C03. One recorded known finding (kinds/priorities pool across a reference boundary).",
+    technique="TLA+ spec (SavedQ.tla over Filter.tla) + TLC case enumeration + S->I replay through the real expansion, compiler and index"),
 }
 NOT_YET = "check not built yet in this round (planned in DESIGN.md section 6); not claimed until its evidence exists"
 
